@@ -85,7 +85,7 @@ Theorem c18_totals : forall cf ops,
 Proof. exact totals. Qed.
 Print Assumptions c18_totals.
 
-(** No total ever decreases: the per-address totals (transactions, queries, bytes sent and received,
+(** No total ever decreases (the Collector's period end [PeriodEnd] is one of the ops): the per-address totals (transactions, queries, bytes sent and received,
     errors) along any continuation of any history; likewise the counters of a client / server row for
     as long as the row exists (ids are not re-used).  Per-connection rows DISAPPEAR with their
     connection: "totals" in the property are the per-address totals of SHOW STATS. *)
@@ -95,6 +95,28 @@ Theorem c18_monotone : forall cf ops more,
   (forall s, s_seen (sv (run cf ops) s) = true -> srow_le (sv (run cf ops) s) (sv (run cf (ops ++ more)) s)).
 Proof. exact monotone. Qed.
 Print Assumptions c18_monotone.
+
+(** The end of a statistics period ([PeriodEnd]: the Collector's tick — averages := current / 15, current := 0,
+    for every address that has a registered server connection) leaves every total, every row and both registries
+    as they are; [c18_monotone] above covers it like every other op. *)
+Theorem c18_period_end_keeps_totals : forall cf ops,
+  let t := run cf ops in let t' := step cf t PeriodEnd in
+  (forall a, a_xact (at_ t' a) = a_xact (at_ t a) /\ a_query (at_ t' a) = a_query (at_ t a) /\
+             a_sent (at_ t' a) = a_sent (at_ t a) /\ a_recv (at_ t' a) = a_recv (at_ t a) /\
+             a_err (at_ t' a) = a_err (at_ t a)) /\
+  creg t' = creg t /\ sreg t' = sreg t /\ (forall c, cl t' c = cl t c) /\ (forall s, sv t' s = sv t s).
+Proof. exact period_end_keeps_totals. Qed.
+Print Assumptions c18_period_end_keeps_totals.
+
+(** Non-vacuity and regression: two errors counted on the replica before a period end are still there after it
+    (the current counter is what goes back to 0); a period end that zeroed the total instead ([period_end_bad],
+    a seeded change of [reset_current_counts]) would make total_errors decrease. *)
+Theorem c18_period_end_witness :
+  let t := run cf_w errs_w in let t' := step cf_w t PeriodEnd in
+  a_err (at_ t 1) = 2 /\ a_err (at_ t' 1) = 2 /\ c_err_ (at_ t 1) = 2 /\ c_err_ (at_ t' 1) = 0 /\
+  a_err (period_end_bad (at_ t 1)) = 0 /\ ~ atot_le (at_ t 1) (period_end_bad (at_ t 1)).
+Proof. exact period_end_witness. Qed.
+Print Assumptions c18_period_end_witness.
 
 (** A CancelRequest connection — whatever process id it names (a connected client's, with the right or a
     wrong secret key, or nobody's) and at any point of any history — changes nothing the admin console shows:
@@ -164,12 +186,12 @@ Definition demo : list op :=
 Example demo_mid :
   observe cf_w 1 (run cf_w (firstn 10 demo)) =
   ([[2; 1; 0; 0; 0; 0]; [1; 1; 2; 0; 1; 0]], [[7; 0; 1; 2; 0; 1; 0; 0]], [[1; 1; 1; 0; 1; 0; 0; 0]], [1; 1; 0; 1],
-   [[0; 0; 1; 0; 0; 0]; [1; 0; 0; 0; 0; 0]]).
+   [[0; 0; 1; 0; 0; 0; 0; 0; 0; 0; 0]; [1; 0; 0; 0; 0; 0; 0; 0; 0; 0; 0]]).
 Proof. vm_compute. reflexivity. Qed.
 
 Example demo_end :
   observe cf_w 1 (run cf_w demo) =
-  ([], [[7; 0; 3; 0; 2; 4; 0; 0]], [[1; 0; 0; 0; 0; 1; 0; 0]], [0; 0; 1; 0], [[0; 2; 4; 0; 0; 0]; [1; 0; 0; 0; 0; 0]])
+  ([], [[7; 0; 3; 0; 2; 4; 0; 0]], [[1; 0; 0; 0; 0; 1; 0; 0]], [0; 0; 1; 0], [[0; 2; 4; 0; 0; 0; 0; 0; 0; 0; 0]; [1; 0; 0; 0; 0; 0; 0; 0; 0; 0; 0]])
   /\ trace cf_w demo = demo.
 Proof. vm_compute. repeat split. Qed.
 
